@@ -10,7 +10,7 @@ ASSUMPTIONS = ["rounding is judged per run, not proved", "real thread interleavi
 
 def run(ctx):
     n_cases, nmax = (800, 48) if ctx.quick() else (20000, 200)
-    recs = S.sweep(ctx, n_cases, nmax, precs="ds", drivers=("gssv",))
+    recs = S.sweep(ctx, n_cases, nmax, precs="dszc", drivers=("gssv",))
     bad = S.judge(ctx, recs, ["wfL", "wfU", "permr", "permc", "resid"], "gssv-residual")
     nons = 0
     for r in recs:
